@@ -20,12 +20,14 @@ def pipeline(ctx, replay=None, parts=("tlc", "random")):
         rnd = os.path.join(ctx.work, "ring_rand.ndjson")
         ctx.harness(hx, ["gen", str(ctx.seed), tier, rnd])
         stim_files = [x for x in [("tlc", stim), ("random", rnd)] if x[0] in parts]
-    for name, sf in stim_files:
-        tr = os.path.join(ctx.work, "ring_trace_%s.ndjson" % name)
-        rej += ctx.run_stimuli(hx, sf, tr, "ring")
+    for name, prof, hxp, sf in kit.profile_runs(ctx, "hx_ring", stim_files, replay):
+        tr = os.path.join(ctx.work, "ring_trace_%s_%s.ndjson" % (name, prof))
+        r = ctx.run_stimuli(hxp, sf, tr, "ring")
         ctx.count_distinct(tr)
         res = ctx.validate("Trace_RingBuffer", tr, comp="ring", max_lines=30000, jobs=8)
-        rej += res["rejected"]
+        for x in r + res["rejected"] + res["heap"]:
+            x["profile"] = prof
+        rej += r + res["rejected"]
         heap += res["heap"]
         os.remove(tr)
     return rej, heap
@@ -35,6 +37,7 @@ def c06(ctx, replay):
     ctx.assumptions += [
         "element type i32 stands for every Copy element type (the code is generic and never inspects elements)",
         "capacities 1..3 (quick) / 1..4 (thorough) exhaustively from every valid (start,len)/first; random histories up to capacity 64",
+        "both build profiles of the harness are executed (release: random histories in full, enumerated ones thinned in the quick tier)",
         "memory safety is observed through guard words around the backing slice and a sentinel in dead slots, not proved",
     ]
     rej, _ = pipeline(ctx, replay)
